@@ -27,9 +27,24 @@ const (
 	stLockWait            // blocked on a shim object (mutex, once, waitgroup); enabled again when it is signalled
 	stResumed             // came back from a native block while another thread was current; continues without a choice
 	stExited
+	stWaitQuiet // waiting for quiescence (the scheduler's counterpart of synctest.Wait): enabled only when nobody else is
 )
 
-var stNames = map[int]string{stParked: "parked", stNative: "native-blocked", stLockWait: "lock-wait", stResumed: "resumed", stExited: "exited"}
+// SyncWait replaces synctest.Wait() in instrumented harness code: a scheduled thread continues only once no
+// other thread is enabled (everybody else is blocked or finished); any other goroutine calls synctest.Wait.
+func SyncWait() {
+	t := self()
+	s := S
+	if t == nil || s == nil {
+		synctest.Wait()
+		return
+	}
+	t.pc = -10
+	t.selN = 0
+	s.park(t, stWaitQuiet)
+}
+
+var stNames = map[int]string{stWaitQuiet: "wait-quiescence", stParked: "parked", stNative: "native-blocked", stLockWait: "lock-wait", stResumed: "resumed", stExited: "exited"}
 
 // Thread is one logical thread (a goroutine that has touched an instrumented operation).
 type Thread struct {
@@ -568,6 +583,22 @@ func (s *Sched) Run() bool {
 		}
 		en, lastEnabled := s.enabled()
 		if len(en) == 0 {
+			// quiescent: a thread waiting for exactly that may continue (lowest id first, no choice)
+			var q *Thread
+			s.mu.Lock()
+			for _, t := range s.threads {
+				if t.state == stWaitQuiet {
+					q = t
+					break
+				}
+			}
+			s.mu.Unlock()
+			if q != nil {
+				s.logf("  quiescent: T%d(%s) continues after SyncWait", q.ID, q.Name)
+				s.last = q
+				s.release(q)
+				continue
+			}
 			if s.harnessDone() {
 				return true
 			}
@@ -663,7 +694,7 @@ func (s *Sched) Stop() {
 	S = nil
 	var parked []*Thread
 	for _, t := range s.threads {
-		if t.state == stParked || t.state == stLockWait || t.state == stResumed {
+		if t.state == stParked || t.state == stLockWait || t.state == stResumed || t.state == stWaitQuiet {
 			parked = append(parked, t)
 		}
 	}
